@@ -8,6 +8,13 @@
 //! Plus: lines EXACTLY through a vertex one of whose edges makes 1e-3 / 1e-4 / 1e-5 rad with the line (the two per-edge
 //! parameters at the vertex differ by rounding: one crossing, no duplicate), and regular polygons with lines through two
 //! vertices (inexact coordinates: the slab test of the accelerated search works at rounding level).
+//! Plus (NEARLY PARALLEL, ANY MAGNITUDE): a 7-edge polyline one of whose edges E (length 0.01 .. 200) is crossed in its
+//! interior by a line making 1e-6 / 1e-8 / 1e-10 rad with it, direction magnitudes 1e-3, 1, 1e3, in all 8 axis
+//! symmetries; which edges the line crosses is decided by orientation signs relative to a point known to lie on the line
+//! (scale-independent: no determinant threshold), judged whenever the determinant of the two direction vectors is above
+//! 4e-12 (below 1e-12 the code reports "parallel" by design).
+//! Plus (THIN FEATURE, ANY MAGNITUDE): a slot 0.002 .. 0.03 wide crossed transversally by lines whose direction vector has
+//! magnitude 1e-3 .. 2000; the two wall crossings (>= 1e-6 apart in parameter) must both be reported.
 use super::{close, Report};
 use crate::common::Intersection;
 use crate::geom2::polyline2::{farthest_point_direction_distance, max_intersection, polyline_intersections, ray_intersect_with_edge, spanning_ray};
@@ -347,8 +354,150 @@ fn regular_polygon_chords(r: &mut Report) {
     } } }
 }
 
+// ---------------------------------------------------------------- nearly parallel lines of any magnitude
+/// one of the 8 symmetries of the square (exact in floating point), then a translation
+fn sym(k: usize, x: f64, y: f64) -> (f64, f64) {
+    let (a, b) = if k & 1 == 1 { (y, x) } else { (x, y) };
+    (if k & 2 == 2 { -a } else { a }, if k & 4 == 4 { -b } else { b })
+}
+/// The local frame has the edge E from (0,0) to (len,0).  The line passes through M = (mf*len, 0) with direction
+/// mag*(1, theta); its origin is M - k*dir with k a power of two (so origin.y = -k*dir.y exactly: the line given to the code
+/// crosses E within one ulp of M, at parameter k).  Polyline (H = max(1, len)):
+/// (-3H,-2H) (-2H,3H) (-H,H) (0,0) (len,0) (len+H,-H) (len+2H,-3H) (len+3H,2H): edges 0 and 6 are crossed well inside
+/// (transversally), edges 1 and 5 are not crossed, the neighbours 2 and 4 of E end on E's end points, which lie within
+/// theta*len of the line: they are not judged.
+fn near_parallel_scaled(r: &mut Report) {
+    for &len in [0.01f64, 0.1, 1.0, 10.0, 200.0].iter() { for &theta in [1e-6f64, 1e-8, 1e-10].iter() { for &mag in [1e-3f64, 1.0, 1e3].iter() {
+        // the determinant of the two direction vectors as the code computes it; below 1e-12 "parallel" by design
+        let det = len * mag * theta;
+        if det < 4e-12 { continue; }
+        let h = len.max(1.0);
+        let local = [(-3.0 * h, -2.0 * h), (-2.0 * h, 3.0 * h), (-h, h), (0.0, 0.0), (len, 0.0), (len + h, -h), (len + 2.0 * h, -3.0 * h), (len + 3.0 * h, 2.0 * h)];
+        for symk in 0..8usize { for &(tx, ty) in [(0.0f64, 0.0f64), (3.5, -1.25)].iter() { for &mf in [0.5f64, 0.25, 0.8125].iter() { for &rev in [false, true].iter() {
+            let tr = |x: f64, y: f64| { let (a, b) = sym(symk, x, y); p(a + tx, b + ty) };
+            let mut pts: Vec<Point2> = local.iter().map(|&(x, y)| tr(x, y)).collect();
+            // 8 vertices: E is the middle edge (index 3) in either vertex order
+            let ie = 3usize;
+            if rev { pts.reverse(); }
+            let n = pts.len();
+            let m = tr(mf * len, 0.0);
+            let (dx, dy) = sym(symk, mag, mag * theta);
+            let line = Polyline::new(pts.clone(), None);
+            let curve = Curve2::from_points(&pts, 1e-6 * len.min(1.0), false).ok().filter(|c| c.points().len() == n);
+            for &k in [0.0f64, 2.0, -4.0, 32.0].iter() { for &sense in [1.0f64, -1.0].iter() {
+                let d = Vector2::new(sense * dx, sense * dy);
+                let o = p(m.x - k * d.x, m.y - k * d.y);
+                let ray = Ray2::new(o, d);
+                r.case();
+                let desc = || format!("polyline {:?} x ray origin ({:?}, {:?}) dir ({:?}, {:?}) [edge {} of length {:?} is crossed at ({:?}, {:?}) = parameter {:?} by this line, which makes {:?} rad with it; |dir| = {:?}; determinant of the two directions {:?}]",
+                    pts.iter().map(|q| (q.x, q.y)).collect::<Vec<_>>(), o.x, o.y, d.x, d.y, ie, len, m.x, m.y, k, theta, mag, det);
+                // orientation of every vertex relative to the line through M (not through the far-away origin), in units of length
+                let side: Vec<f64> = pts.iter().map(|q| (d.x * (q.y - m.y) - d.y * (q.x - m.x)) / mag).collect();
+                let margin = 1e-6 * h;
+                let got = polyline_intersections(&line, &ray);
+                let got_c = curve.as_ref().map(|c| c.ray_intersections(&ray));
+                for i in 0..n - 1 {
+                    let (sa, sb) = (side[i], side[i + 1]);
+                    let e = ray_intersect_with_edge(&line, &ray, i);
+                    let d1 = || format!("{}: edge {}: ray_intersect_with_edge = {:?}; polyline_intersections = {:?}", desc(), i, e, got);
+                    if i == ie {
+                        // E: end points strictly on opposite sides, crossing at M (edge parameter mf, well inside)
+                        r.check(sa * sb < 0.0, "harness: the end points of the nearly parallel edge lie strictly on opposite sides of the line", d1);
+                        r.check(e.is_some(), "per edge: a line crossing the interior of an edge at 1e-6 .. 1e-10 rad (determinant of the directions >= 4e-12) is reported, whatever the magnitudes of the direction vector and of the edge", d1);
+                        if let Some(t) = e {
+                            let q = at(&o, &d, t);
+                            r.check(on_edge(&q, &pts[i], &pts[i + 1]), "per edge: the reported parameter gives a point on the nearly parallel edge", d1);
+                            if tx == 0.0 && ty == 0.0 { r.check((t - k).abs() <= 1e-9 * (1.0 + k.abs()), "per edge: the reported parameter is the parameter of the crossing point (origin = crossing point - k * dir)", d1); }
+                        }
+                        for (src, g) in [("polyline_intersections", Some(&got)), ("Curve2::ray_intersections", got_c.as_ref())] {
+                            if let Some(g) = g {
+                                r.check(g.iter().any(|(t, j)| *j == i && on_edge(&at(&o, &d, *t), &pts[i], &pts[i + 1])), "none is missed: the crossing of a nearly parallel edge (any magnitude of direction vector / edge) is in the reported list", || format!("{}: {} = {:?}", desc(), src, g));
+                            }
+                        }
+                    } else if (sa > margin && sb < -margin) || (sa < -margin && sb > margin) {
+                        // transversal crossing well inside the edge: parameter from the orientation ratio
+                        let f = sa / (sa - sb);
+                        let q = p(pts[i].x + (pts[i + 1].x - pts[i].x) * f, pts[i].y + (pts[i + 1].y - pts[i].y) * f);
+                        let t = ((q.x - o.x) * d.x + (q.y - o.y) * d.y) / (d.x * d.x + d.y * d.y);
+                        r.check(match e { Some(x) => (x - t).abs() <= 1e-9 * (1.0 + t.abs()), None => false }, "per edge: an edge whose end points lie on opposite sides of the line is crossed, at the parameter of the crossing point", || format!("{} expected {:?}", d1(), t));
+                        r.check(got.iter().any(|(x, j)| *j == i && (x - t).abs() <= 1e-9 * (1.0 + t.abs())), "none is missed: a transversal crossing of the same line is in the reported list", d1);
+                    } else if (sa > margin && sb > margin) || (sa < -margin && sb < -margin) {
+                        r.check(e.is_none() && !got.iter().any(|(_, j)| *j == i), "an edge whose end points lie on the same side of the line is not reported", d1);
+                    }
+                }
+                // soundness and order of everything reported
+                for (src, g) in [("polyline_intersections", Some(&got)), ("Curve2::ray_intersections", got_c.as_ref())] {
+                    if let Some(g) = g {
+                        let d2 = || format!("{}: {} = {:?}", desc(), src, g);
+                        r.check(g.iter().all(|(t, i)| *i + 1 < n && t.is_finite() && on_edge(&at(&o, &d, *t), &pts[*i], &pts[*i + 1])), "every reported parameter gives a point on the named edge", d2);
+                        r.check(g.windows(2).all(|w| w[1].0 - w[0].0 >= DEDUP), "list ascending without duplicates (1e-8)", d2);
+                    }
+                }
+            } }
+        } } } }
+    } } }
+}
+
+// ---------------------------------------------------------------- long / short direction vectors over a thin feature
+/// A slot of width w (0.002 .. 0.03) with two parallel walls, crossed transversally (slope 1/8 .. 2) by a line whose
+/// direction vector has magnitude 1e-3 .. 2000: the two wall crossings are w/|dir|-ish apart in PARAMETER (>= 1e-6, so
+/// inside the input space) although the parameter scale differs by 6 orders of magnitude.  Both must be reported, in
+/// order, with the third (far) crossing.  Crossed edges decided by orientation signs relative to the known point M of the
+/// line; parameters from the orientation ratio.
+fn thin_feature_scaled_lines(r: &mut Report) {
+    for &w in [0.002f64, 0.01, 0.03].iter() { for &mag in [1e-3f64, 1.0, 1000.0, 2000.0].iter() { for &(sx, sy) in [(1.0f64, 0.125f64), (1.0, -0.5), (0.5, 1.0)].iter() {
+        // parameter distance of the two wall crossings; the 1e-8 merge must not touch them: only lines with a gap >= 1e-6
+        let gap = w / (mag * sx);
+        if gap < 1e-6 { continue; }
+        let local = [(-3.0, 2.0), (-0.5 * w, 1.0), (-0.5 * w, -1.0), (0.5 * w, -1.0), (0.5 * w, 1.0), (3.0, 2.0), (4.0, -3.0)];
+        for symk in 0..8usize { for &rev in [false, true].iter() {
+            let tr = |x: f64, y: f64| { let (a, b) = sym(symk, x, y); p(a, b) };
+            let mut pts: Vec<Point2> = local.iter().map(|&(x, y)| tr(x, y)).collect();
+            if rev { pts.reverse(); }
+            let n = pts.len();
+            let m = tr(0.0, 0.0);
+            let (dx, dy) = sym(symk, mag * sx, mag * sy);
+            let line = Polyline::new(pts.clone(), None);
+            let curve = Curve2::from_points(&pts, 1e-6, false).ok().filter(|c| c.points().len() == n);
+            for &k in [0.0f64, 2.0, -4.0].iter() { for &sense in [1.0f64, -1.0].iter() {
+                let d = Vector2::new(sense * dx, sense * dy);
+                let o = p(m.x - k * d.x, m.y - k * d.y);
+                let ray = Ray2::new(o, d);
+                r.case();
+                let desc = || format!("polyline {:?} x ray origin ({:?}, {:?}) dir ({:?}, {:?}) [slot of width {:?}, |dir| ~ {:?}: the two wall crossings are {:?} apart in parameter]",
+                    pts.iter().map(|q| (q.x, q.y)).collect::<Vec<_>>(), o.x, o.y, d.x, d.y, w, mag, gap);
+                let side: Vec<f64> = pts.iter().map(|q| (d.x * (q.y - m.y) - d.y * (q.x - m.x)) / mag).collect();
+                let margin = 1e-6;
+                let mut expected: Vec<(f64, usize)> = vec![];
+                let mut clear = true;
+                for i in 0..n - 1 {
+                    let (sa, sb) = (side[i], side[i + 1]);
+                    if (sa > margin && sb < -margin) || (sa < -margin && sb > margin) {
+                        let f = sa / (sa - sb);
+                        let q = p(pts[i].x + (pts[i + 1].x - pts[i].x) * f, pts[i].y + (pts[i + 1].y - pts[i].y) * f);
+                        expected.push((((q.x - o.x) * d.x + (q.y - o.y) * d.y) / (d.x * d.x + d.y * d.y), i));
+                    } else if !((sa > margin && sb > margin) || (sa < -margin && sb < -margin)) { clear = false; }
+                }
+                if !clear { continue; }
+                expected.sort_by(|a, b| a.0.partial_cmp(&b.0).unwrap());
+                r.check(expected.len() == 3, "harness: the line crosses both walls of the slot and the far edge", desc);
+                let mut srcs = vec![("polyline_intersections", polyline_intersections(&line, &ray))];
+                if let Some(c) = curve.as_ref() { srcs.push(("Curve2::ray_intersections", c.ray_intersections(&ray))); }
+                for (src, got) in srcs.iter() {
+                    let d2 = || format!("{}: {} = {:?}; per-edge crossings by orientation {:?}", desc(), src, got, expected);
+                    r.check(got.len() == expected.len() && got.iter().zip(expected.iter()).all(|(g, e)| g.1 == e.1 && (g.0 - e.0).abs() <= 1e-9 * (1.0 + e.0.abs())),
+                        "reported intersections equal the per-edge ones whatever the magnitude of the direction vector (crossings >= 1e-6 apart in parameter are distinct)", d2);
+                }
+                let mi = max_intersection(&line, &ray);
+                r.check(match (mi, expected.last()) { (Some(a), Some(b)) => (a - b.0).abs() <= 1e-9 * (1.0 + b.0.abs()), _ => false }, "max_intersection == largest per-edge parameter (direction vector of any magnitude)", || format!("{}: got {:?}, per-edge {:?}", desc(), mi, expected));
+                r.check(spanning_ray(&line, &ray).is_none(), "spanning ray produced exactly when there are two crossings (here three, direction vector of any magnitude)", desc);
+            } }
+        } }
+    } } }
+}
+
 pub fn run() -> Option<Report> {
-    let mut r = Report::new("43 polylines with 5..=40 edges on integer grids (zig-zags, combs, staircases, U shapes, closed rectangles / diamonds / octagons / star, rectangular spirals, open chains whose end vertex is the unique extreme) x per polyline: axis-parallel lines through every vertex coordinate, the box bounds, one unit outside and fractional offsets (5 origins before / inside / behind / on the box, 4 signed speeds) and oblique lines of 13 dyadic slopes (5 of them nearly parallel to edges, direction determinants 2^-10 .. 2^-16) through every third vertex, the last vertex and 4 off-grid anchors (origin on the anchor and 16 steps before / behind); surface points = the same lines with a unit normal; lines whose distinct crossings are closer than 1e-6 are excluded; NEAR-PARALLEL: 648 closed pentagons (3 vertex positions x 6 dyadic line directions x nearly parallel edge of length 1.3 / 4.2 / 9.7 at 1e-3, 1e-4, 1e-5 rad, on either side, vertex = end or start of that edge) x 18 lines EXACTLY through the vertex (origin 0, 2, 8, 32, -4, -16 steps before it, speeds 1, -1, 0.5); REGULAR POLYGONS: 5,6,7,8,9,12,16,24-gons of radius 1, 2.5, 10 at 2 centres x every line through two non-adjacent vertices (inexact coordinates)");
+    let mut r = Report::new("43 polylines with 5..=40 edges on integer grids (zig-zags, combs, staircases, U shapes, closed rectangles / diamonds / octagons / star, rectangular spirals, open chains whose end vertex is the unique extreme) x per polyline: axis-parallel lines through every vertex coordinate, the box bounds, one unit outside and fractional offsets (5 origins before / inside / behind / on the box, 4 signed speeds) and oblique lines of 13 dyadic slopes (5 of them nearly parallel to edges, direction determinants 2^-10 .. 2^-16) through every third vertex, the last vertex and 4 off-grid anchors (origin on the anchor and 16 steps before / behind); surface points = the same lines with a unit normal; lines whose distinct crossings are closer than 1e-6 are excluded; NEAR-PARALLEL: 648 closed pentagons (3 vertex positions x 6 dyadic line directions x nearly parallel edge of length 1.3 / 4.2 / 9.7 at 1e-3, 1e-4, 1e-5 rad, on either side, vertex = end or start of that edge) x 18 lines EXACTLY through the vertex (origin 0, 2, 8, 32, -4, -16 steps before it, speeds 1, -1, 0.5); REGULAR POLYGONS: 5,6,7,8,9,12,16,24-gons of radius 1, 2.5, 10 at 2 centres x every line through two non-adjacent vertices (inexact coordinates); NEARLY PARALLEL, ANY MAGNITUDE: 7-edge polyline with an edge of length 0.01, 0.1, 1, 10, 200 crossed at 0.25 / 0.5 / 0.8125 of its length by a line at 1e-6, 1e-8, 1e-10 rad with |dir| = 1e-3, 1, 1e3 (combinations whose direction determinant len*|dir|*angle is >= 4e-12), 8 axis symmetries x 2 translations x both vertex orders x origins 0, 2, -4, 32 steps before the crossing x both senses; crossed edges decided by orientation signs relative to the known crossing point; THIN FEATURE: a slot of width 0.002, 0.01, 0.03 crossed at slopes 1/8, -1/2, 2 by lines with |dir| ~ 1e-3, 1, 1e3, 2e3 whose two wall crossings are >= 1e-6 apart in parameter (8 symmetries, both vertex orders, 3 origins, both senses)");
     for (name, pts) in polylines() {
         let line = Polyline::new(pts.clone(), None);
         let curve = Curve2::from_points(&pts, 1e-6, false).ok();
@@ -368,5 +517,7 @@ pub fn run() -> Option<Report> {
     }
     near_parallel_vertex_lines(&mut r);
     regular_polygon_chords(&mut r);
+    near_parallel_scaled(&mut r);
+    thin_feature_scaled_lines(&mut r);
     Some(r)
 }
